@@ -674,3 +674,83 @@ func TestVerifC12Table(t *testing.T) {
 		be.srv.Close()
 	}
 }
+
+// TestVerifC12StalledThenGone: the backend accepts the websocket and stops reading while the client keeps posting large
+// messages; once every buffer on the way is full a data call waits for room (back-pressure).  Then the backend goes
+// away.  The waiting call, every later data call and the close call must be answered.
+func TestVerifC12StalledThenGone(t *testing.T) {
+	out := verifOpenOut(t)
+	defer out.close()
+	up := websocket.Upgrader{}
+	conns := make(chan net.Conn, 1)
+	srv := httptest.NewServer(http.HandlerFunc(func(w http.ResponseWriter, r *http.Request) {
+		c, err := up.Upgrade(w, r, nil)
+		if err != nil {
+			return
+		}
+		conns <- c.UnderlyingConn()
+		select {} // never reads, never returns
+	}))
+	defer srv.CloseClientConnections()
+	shim := newVerifShim(strings.TrimPrefix(srv.URL, "http://"), false)
+	res := map[string]interface{}{"kind": "stalled-then-gone"}
+	r, id := shim.open("ws://ignored/ws", "1")
+	if r.Status != 200 {
+		res["error"] = fmt.Sprintf("open: %d", r.Status)
+		out.emit(res)
+		return
+	}
+	raw := <-conns
+	big := strings.Repeat("x", 512*1024)
+	type callRes struct {
+		status int
+		hung   bool
+	}
+	waiting := make(chan callRes, 1)
+	posted, blockedAt := 0, -1
+	for k := 0; k < 64 && blockedAt < 0; k++ {
+		body, _ := json.Marshal([]map[string]interface{}{{"id": id, "msg": big}})
+		done := make(chan callRes, 1)
+		go func() {
+			cr := shim.call("data", body, map[string]string{"X-Websocket-Shim-Version": "1"}, 60*time.Second)
+			done <- callRes{cr.Status, cr.Hung}
+		}()
+		select {
+		case <-done:
+			posted++
+		case <-time.After(2 * time.Second):
+			blockedAt = k
+			go func() { waiting <- <-done }()
+		}
+	}
+	res["posts_answered_before_the_stall"], res["stalled_at_post"] = posted, blockedAt
+	if blockedAt < 0 {
+		res["error"] = "no data call ever waited for room"
+		out.emit(res)
+		return
+	}
+	raw.Close() // the backend goes away
+	select {
+	case cr := <-waiting:
+		res["waiting_call_status"] = cr.status
+	case <-time.After(8 * time.Second):
+		res["waiting_call_status"] = -1
+	}
+	var later []int
+	for k := 0; k < 3; k++ {
+		body, _ := json.Marshal([]map[string]interface{}{{"id": id, "msg": "after"}})
+		cr := shim.call("data", body, map[string]string{"X-Websocket-Shim-Version": "1"}, 5*time.Second)
+		st := cr.Status
+		if cr.Hung {
+			st = -1
+		}
+		later = append(later, st)
+	}
+	res["later_data_statuses"] = later
+	cr := shim.call("close", verifSessionBody(id), nil, 5*time.Second)
+	res["close_status"] = cr.Status
+	if cr.Hung {
+		res["close_status"] = -1
+	}
+	out.emit(res)
+}
